@@ -1,6 +1,6 @@
 """Correspondence between the Lean model of the stylesheet transformer and the implementation:
 same token tree in, compare output token streams (numbers with tolerance), warnings, source-map entries."""
-import json, struct
+import json, struct, subprocess
 from . import core
 from .cssoracle import _SX, _unq
 
@@ -205,3 +205,80 @@ def run_cases(cases):
         else:
             res.append(json.loads(a))
     return res
+
+
+# ---- corr:sheet-spec: the SPECIFICATIONS of the whole-sheet theorems (go / goI, GE/Thm/C17Sheet.lean, C09Sheet.lean) against the implementation ----
+def _shapes_of(flat):
+    out = []
+    for t in flat:
+        if t[0] == "open":
+            out.append("o:" + t[1])
+        elif t[0] == "close":
+            out.append("c:" + t[1])
+        elif t[0] in ("ws", "comment"):
+            continue
+        elif t[0] == "delim":
+            out.append("l:delim" + t[1])
+        else:
+            out.append("l:" + t[0])
+    return out
+
+
+def _idents_of(flat):
+    return [t[1] for t in flat if t[0] == "ident"]
+
+
+def compare_spec(chk, cases, results, stream="sheet-spec", limit=400):
+    """the fuel-free readings of the token tree (what sheet_partition / sheet_idents prove the model equal to) vs the token kinds and identifiers of
+    the real outputs; stylesheets transformed without an import sign.  Run through `lake env lean --run SpecRun.lean` (the driver imports models only)."""
+    if not core.MODEL_OK:
+        return 0
+    reqs, idx = [], []
+    for i, ((o, css), res) in enumerate(zip(cases, results)):
+        if "panic" in res or "tokens_in" not in res or o.get("import_sign") is not None:
+            continue
+        reqs.append(core.req(*opts_fields(o), res["tokens_in"]))
+        idx.append(i)
+        if len(reqs) >= limit:
+            break
+    if not reqs:
+        return 0
+    ok, log = core.lake_build(["GE.Thm.C09Sheet", "GE.Model.CssIO"])
+    if not ok:
+        chk.violation("proof", "the specification modules of the whole-sheet theorems do not build", log=log[-2000:])
+        return 0
+    p = subprocess.run(["lake", "env", "lean", "--run", "SpecRun.lean"], cwd=core.LEAN, input=("\n".join(reqs) + "\n").encode(), stdout=subprocess.PIPE,
+                       stderr=subprocess.PIPE, timeout=1800, env=core.ENV)
+    outs = p.stdout.decode("utf-8", "replace").split("\n")
+    if outs and outs[-1] == "":
+        outs.pop()
+    if p.returncode != 0 or len(outs) != len(reqs):
+        chk.violation("correspondence", f"SpecRun: rc={p.returncode}, {len(outs)}/{len(reqs)} answers", detail=p.stderr.decode("utf-8", "replace")[-1500:])
+        return 0
+    nd = 0
+    for i, a in zip(idx, outs):
+        o, css = cases[i]
+        res = results[i]
+        f = a.split("\t")
+        if a == "skip":
+            continue
+        chk.disagreements_checked += 1
+        if len(f) < 4:
+            nd += 1
+            chk.violation("correspondence", f"sheet specification could not read the token tree: {a[:80]}", stream=stream, css=css, opts=o)
+            continue
+        rn, rl = flatten_real(sx_parse(res["tokens_normal"]), []), flatten_real(sx_parse(res["tokens_low"]), [])
+        spec = (f[0].split(" ") if f[0] else [], f[1].split(" ") if f[1] else [],
+                core.unesc(f[2]).split("\x1f") if f[2] else [], core.unesc(f[3]).split("\x1f") if f[3] else [])
+        real = (_shapes_of(rn), _shapes_of(rl), _idents_of(rn), _idents_of(rl))
+        for name, s_, r_ in zip(("token kinds of the normal output", "token kinds of the low-priority output", "identifiers of the normal output",
+                                 "identifiers of the low-priority output"), spec, real):
+            if s_ != r_:
+                nd += 1
+                if nd <= 4:
+                    chk.violation("correspondence", f"whole-sheet specification (go / goI) and implementation differ in the {name}", stream=stream, css=css, opts=o,
+                                  spec=" ".join(s_)[:800], real=" ".join(r_)[:800])
+                break
+    chk.bump(f"corr:{stream}:cases", len(reqs))
+    chk.bump(f"corr:{stream}:diffs", nd)
+    return nd
